@@ -66,13 +66,21 @@ def leaves(t):
     return leaves(t[4]) + leaves(t[5])
 
 
-def judge(ctx, what, ans, replay, want_complete=None, impl=None, sy=None, confirm=None):
+def judge(ctx, what, ans, replay, want_complete=None, impl=None, sy=None, confirm=None, want_minimal=False):
     """ans = [1,[valid_impl,size_impl,size_model,partial_model,diff,valid_model]] | [0, code]"""
     if ans[0] != 1:
         ctx.violation(f"{what}: model evaluation failed with code {ans[1]} (model/harness problem)", replay, confirmed=False)
         return
-    valid_impl, size_impl, size_model, partial_model, diff, valid_model = ans[1]
+    valid_impl, size_impl, size_model, partial_model, diff, valid_model, min_size = ans[1]
     problems = []
+    if want_minimal:
+        ms = enc.dec_res(min_size)
+        if ms[0] != "ok":
+            ctx.violation(f"{what}: model minimisation failed {ms}", replay, confirmed=False)
+            return
+        ctx.tally("minify_option_checked")
+        if size_impl != ms[1]:
+            problems.append(f"minify=True result has {size_impl} states, the minimal DFA for this language has {ms[1]}")
     if not valid_impl:
         problems.append("result does not satisfy the validity rules")
     if not valid_model:
@@ -122,7 +130,9 @@ def check_tree(ctx, t, tag):
     ctx.tally("tree_has_partial_leaf" if any(d["allow_partial"] for d in ls) else "tree_all_complete")
     ctx.case(("tree", enc.tree(enc_tree(t, sy)), show_tree(t)), nontriv,
              sample={"tree": show_tree(t), "result_states": len(impl.states)})
-    judge(ctx, "expression " + show_tree(t)[:80], ans, replay, sy=sy,
+    root_min = (t[0] == "bin" and (t[2] == "operator" or t[3]["minify"])) or \
+               (t[0] == "compl" and (t[1] == "operator" or t[2]["minify"]))
+    judge(ctx, "expression " + show_tree(t)[:80], ans, replay, sy=sy, want_minimal=root_min,
           confirm=lambda w: f"(result accepts: {impl.accepts_input(w)}, operation on operand verdicts: {sem(t, w)})")
 
 
